@@ -32,6 +32,7 @@ pub fn profile(tier: Tier) -> Profile {
     p.private = 0;
     p.workgroup = 0;
     p.unused_structs = (0, 0);
+    p.keyword_names = 2;
     p
 }
 
